@@ -18,7 +18,7 @@ class Task:
     """name: obligation-name prefix; props: property ids served; targets: qualnames whose
     source is under contract (sha recorded); body(it): drives the interpreter."""
 
-    def __init__(self, name, props, targets, body, axioms=None, assumes=(), bounded_rank=None, timeout_ms=20000):
+    def __init__(self, name, props, targets, body, axioms=None, assumes=(), bounded_rank=None, timeout_ms=20000, refine_axioms=None):
         self.name = name
         self.props = props
         self.targets = targets
@@ -27,6 +27,10 @@ class Task:
         self.assumes = list(assumes)
         self.bounded_rank = bounded_rank
         self.timeout_ms = timeout_ms
+        # optional: axioms that make an abstraction exact (e.g. an uninterpreted product := real product).  A
+        # refutation found under the abstraction is re-checked with them: it stands only if it survives
+        # (unsat -> proved, unknown -> unknown), so an abstraction can never by itself produce a violation.
+        self.refine_axioms = refine_axioms
 
 
 def check_call(it, name, fn, args=(), kwargs=None, post=None, raises=None, pre_state=None):
@@ -124,6 +128,12 @@ def run_task(task, repo=None, max_paths=MAX_PATHS):
         else:
             try:
                 discharge(ob, ctx.axioms, task.timeout_ms, witness=ctx.witness)
+                if ob.status == "refuted" and task.refine_axioms is not None:
+                    t_abs = ob.time
+                    discharge(ob, list(ctx.axioms) + list(task.refine_axioms()), task.timeout_ms, witness=ctx.witness)
+                    ob.time += t_abs
+                    if ob.status == "unknown":
+                        ob.reason = "refuted under the abstraction, undecided with the exact definition: " + str(ob.reason)
             except Exception:
                 ob.status = "unknown"
                 ob.reason = traceback.format_exc()[-500:]
